@@ -232,7 +232,28 @@ func extractPieces(f *ast.File, fn string) []string {
 		}
 		w := &pieceWalker{f: f}
 		w.stmts(fd.Body.List, nil)
-		return w.out
+		// canonical form: neighbouring literals are one literal (how the text is cut into WriteString calls does not matter)
+		var merged []string
+		lit := ""
+		have := false
+		flush := func() {
+			if have {
+				merged = append(merged, "PLit "+coqStr(lit))
+				lit, have = "", false
+			}
+		}
+		for _, p := range w.out {
+			if strings.HasPrefix(p, "PLit \"") {
+				body := p[len("PLit \"") : len(p)-1]
+				lit += strings.ReplaceAll(body, "\"\"", "\"")
+				have = true
+				continue
+			}
+			flush()
+			merged = append(merged, p)
+		}
+		flush()
+		return merged
 	}
 	return nil
 }
